@@ -112,40 +112,41 @@ type Layout struct {
 	Start, End []int // entry i occupies [Start[i], End[i]); End[i] is just after the trailer's newline
 	DateStart  []int // offset of the first date token of entry i
 	TrailerNL  []int // offset of the newline that ends the trailer of entry i
-	Owner      []int // per byte: entry index, or -1 for blank lines outside entries
+	Len        int
+}
+
+// Owner says which entry the byte at offset p belongs to; -1 for blank lines outside entries.
+func (l Layout) Owner(p int) int {
+	for i := range l.Start {
+		if p >= l.Start[i] && p < l.End[i] {
+			return i
+		}
+	}
+	return -1
 }
 
 func (d Doc) Render() (string, Layout) {
 	var b strings.Builder
 	var l Layout
-	blank := func(n int) {
-		for i := 0; i < n; i++ {
-			b.WriteByte('\n')
-			l.Owner = append(l.Owner, -1)
-		}
-	}
-	blank(d.Lead)
+	b.WriteString(strings.Repeat("\n", d.Lead))
 	for i, e := range d.Entries {
 		l.Start = append(l.Start, b.Len())
 		b.WriteString(e.header())
 		b.WriteString(e.changeText())
-		tr := e.trailer()
 		l.DateStart = append(l.DateStart, b.Len()+len(" -- "+e.Maint+"  "))
-		b.WriteString(tr)
+		b.WriteString(e.trailer())
 		l.End = append(l.End, b.Len())
 		l.TrailerNL = append(l.TrailerNL, b.Len()-1)
-		for len(l.Owner) < b.Len() {
-			l.Owner = append(l.Owner, i)
-		}
 		if i < len(d.Entries)-1 {
 			n := 1
 			if i < len(d.Between) {
 				n = d.Between[i]
 			}
-			blank(n)
+			b.WriteString(strings.Repeat("\n", n))
 		}
 	}
-	blank(d.Trail)
+	b.WriteString(strings.Repeat("\n", d.Trail))
+	l.Len = b.Len()
 	return b.String(), l
 }
 
